@@ -295,7 +295,17 @@ def type_source(t: TS, rt_module: str) -> str:
     for f in t.fields:
         if f.kind == "flat":
             md = f"metadata=alias({f.alias!r})" if f.alias else ""
-            out += ["@dataclass", f"class {_inner_name(t, f)}:", f"    {f.name}_i: int = field({md})", ""]
+            out += [
+                "@dataclass",
+                f"class {_inner_name(t, f)}:",
+                f"    {f.name}_i: int = field({md})",
+                "",
+                "    @validator",
+                "    def inner_check(self):",
+                f"        if self.{f.name}_i == -7:",
+                f'            raise ValidationError("{f.name} inner!")',
+                "",
+            ]
     used: Dict[str, set] = {f.name: set() for f in t.fields}
     for v in t.validators:
         for d, a in zip(v.deps, v.access):
@@ -341,7 +351,8 @@ def type_source(t: TS, rt_module: str) -> str:
 STATUSES = {
     "plain": ("absent", "valid", "badtype"),
     "initvar": ("absent", "valid", "badtype"),
-    "flat": ("absent", "valid", "badtype"),
+    # rootfail: the nested object is rejected by its own validator with a message at its root (no child path)
+    "flat": ("absent", "valid", "badtype", "rootfail"),
     "fv": ("absent", "valid", "badtype", "negative"),
     "fb": ("absent", "valid", "badtype"),
 }
@@ -379,6 +390,8 @@ def make_datum(t: TS, status: Dict[str, str], dyn, extra_key: bool) -> dict:
             d[ext(f.name)] = "x"
         elif st == "negative":
             d[ext(f.name)] = -5
+        elif st == "rootfail":
+            d[ext(f.name)] = -7
     if extra_key:
         d["zz"] = 1
     return d
@@ -409,6 +422,10 @@ def reference(t: TS, order: List[VS], status: Dict[str, str], fails: Dict[str, b
         elif st == "negative":
             invalid.add(f.name)
             errs.append((loc, "negative"))
+        elif st == "rootfail":
+            # the messages of a flattened object are those of the object holding it
+            invalid.add(f.name)
+            errs.append(((), f"{f.name} inner!"))
     if extra_key:
         errs.append((("zz",), E.unexpected_property))
     structural = bool(errs)
